@@ -34,13 +34,42 @@ ASSUMPTIONS = [
 MUST_REACH = {
     "roundtrips": 400, "templates_covered": 481, "zerocoded": 20, "with_acks": 20, "with_extra": 20,
     "fill_cases": 50, "fill_mixed_marks_in_one_list": 10, "failed_serializations_before_good_ones": 30, "serialized_twice": 100, "fill_unset_fixed": 1, "fill_unset_variable": 1, "omitted_trailing": 5, "count_255": 1, "count_0": 5,
-    "ref_bytes_equal": 400, "header_edits_on_received": 100, "header_edits_on_zerocoded": 10, "header_edits_after_body_parse": 10,
+    "ref_bytes_equal": 400, "roundtrips_custom_template": 300, "header_edits_on_received": 100, "header_edits_on_zerocoded": 10, "header_edits_after_body_parse": 10,
 }
 
 _ser = UDPMessageSerializer()
 _settings = Settings()
 _settings.ENABLE_DEFERRED_PACKET_PARSING = False
 _deser = UDPMessageDeserializer(settings=_settings)
+
+_TD = gen_msg.DEFAULT_TEMPLATE_DICT
+
+
+class custom_config:
+    """Run the same check against a serializer / deserializer pair built on a caller-supplied template (other wire types for
+    many variables) that lives in the process next to the stock pair."""
+    _objs = None
+
+    def __enter__(self):
+        global _ser, _deser, _lazy_deser, _TD
+        if custom_config._objs is None:
+            from ..custom_template import custom_template_file
+            from hippolyzer.lib.base.message.template_dict import TemplateDictionary
+            td = TemplateDictionary(message_template=custom_template_file())
+            ser = UDPMessageSerializer(message_template=custom_template_file())
+            deser = UDPMessageDeserializer(settings=_settings)
+            deser.template_dict = td
+            lazy = UDPMessageDeserializer()
+            lazy.template_dict = td
+            custom_config._objs = (ser, deser, lazy, td)
+        self.saved = (_ser, _deser, _lazy_deser, _TD)
+        _ser, _deser, _lazy_deser, _TD = custom_config._objs
+        return _TD
+
+    def __exit__(self, *a):
+        global _ser, _deser, _lazy_deser, _TD
+        _ser, _deser, _lazy_deser, _TD = self.saved
+
 
 ZERO_BY_TYPE = {
     MsgType.MVT_LLUUID: UUID(), MsgType.MVT_IP_ADDR: "0.0.0.0",
@@ -94,9 +123,9 @@ def _provoke_failure(ctx):
 
 
 def check_spec(ctx, spec):
-    tmpl = gen_msg.DEFAULT_TEMPLATE_DICT[spec["name"]]
+    tmpl = _TD[spec["name"]]
     ctx.ev()
-    key = gen_msg.shape_key(spec)
+    key = gen_msg.shape_key(spec) + ((spec.get("template_config"),) if spec.get("template_config") else ())
     try:
         msg = gen_msg.build_message(spec)
     except Exception as e:
@@ -405,12 +434,23 @@ def run(ctx):
             spec = gen_msg.limit_for_zerocode(rng, tmpl, opts)
             check_spec(ctx, spec)
             covered.add(tmpl.name)
+            if k % 6 == 1:
+                # the same message name through the pair built on a caller-supplied template, then the stock pair again
+                with custom_config() as td:
+                    cspec = gen_msg.limit_for_zerocode(rng, td[tmpl.name], opts)
+                    cspec["template_config"] = "custom"
+                    check_spec(ctx, cspec)
+                    ctx.count("roundtrips_custom_template")
+                check_spec(ctx, gen_msg.limit_for_zerocode(rng, tmpl, opts))
     for name in covered:
         ctx.cover("templates", name)
 
 
 def replay(ctx, w):
-    if "spec" in w:
+    if "spec" in w and w["spec"].get("template_config") == "custom":
+        with custom_config():
+            check_spec(ctx, _fix_spec(w["spec"]))
+    elif "spec" in w:
         check_spec(ctx, _fix_spec(w["spec"]))
 
 
